@@ -170,11 +170,17 @@ def prefix_requests(pdu):
 LOOSE_SLUGS = set()
 
 
-def unjustified_changes(framing, streams, before, after, unit_of_store, loose=False):
+def unjustified_changes(framing, streams, before, after, unit_of_store, loose=False, layout=None):
     """cells whose final value no candidate write request in the bytes could have produced.
-    loose=True also accepts integrity-valid frames whose PDU is a valid write request followed by extra bytes."""
+    loose=True also accepts integrity-valid frames whose PDU is a valid write request followed by extra bytes.
+    With a layout, a candidate request that the reference register file answers with an exception (quantity out of
+    range, any addressed cell missing - for FC23 in either half) prescribes no change at all."""
     allowed = {}
     masks = {}
+    rf = None
+    if layout is not None:
+        mdl = SM.build_model(layout)
+        rf = mdl.only if mdl.single else mdl.units.get(unit_of_store)
     for data in streams:
         cands = ADU.candidates(framing, REQ, data, loose=loose) if framing != 'tls' else tls_candidates(data)
         if loose and framing == 'ascii':
@@ -198,6 +204,12 @@ def unjustified_changes(framing, streams, before, after, unit_of_store, loose=Fa
             else:
                 msgs.append(f.msg)
         for msg in msgs:
+            if rf is not None and write_effects(msg):
+                try:
+                    if rf.classify(msg) != 0:
+                        continue
+                except (KeyError, TypeError):
+                    pass
             for t, a, v in write_effects(msg):
                 if isinstance(v, tuple):
                     masks.setdefault((t, a), []).append(v)
@@ -270,12 +282,12 @@ def check(run, case):
     streams = [stream] if front in FE.STREAM else list(reads)
     if framing == 'tls':
         streams = [b''.join(reads[i:j]) for i in range(len(reads)) for j in range(i + 1, len(reads) + 1)]
-    bad = unjustified_changes(framing, streams, before, after, UNIT) if after != before else []
+    bad = unjustified_changes(framing, streams, before, after, UNIT, layout=layout) if after != before else []
     run.count('store_judgements')
     if after != before:
         run.count('stores_changed_by_hostile_input')
     LOOSE_SLUGS.clear()
-    if bad and framing not in ('tcp', 'tls') and not unjustified_changes(framing, streams, before, after, UNIT, loose=True):
+    if bad and framing not in ('tcp', 'tls') and not unjustified_changes(framing, streams, before, after, UNIT, loose=True, layout=layout):
         regs |= set(LOOSE_SLUGS)
         kinds['store-change-from-nonconformant-pdu'] = 'cells changed by a checksum-valid frame whose PDU is not a conformant request (%s): %r' % (sorted(LOOSE_SLUGS), bad[:4])
     elif bad:
